@@ -45,9 +45,13 @@ Boundary ==
            <<170, 85, 170, 85, 170, 85, 170, 255>>, <<255, 255, 255, 254, 255, 255, 255, 255>> }
 Edge == {Seq0, AllOnes(4), [AllOnes(8) EXCEPT ![8] = 254], AllOnes(8)}
 StartSet == CASE Starts = "boundary" -> Boundary [] Starts = "edge" -> Edge [] OTHER -> {Seq0}
+\* "cross": the sender stays at 0 and the receiver stands at 2^j, for every bit j of the counter (a message
+\* sealed at one position must not open at a position that differs in any single bit)
+PowerOfTwo(j) == [i \in 1..8 |-> IF i = 8 - (j \div 8) THEN Pow2(j % 8) ELSE 0]
 
 \* the receiver starts where the sender starts, one before, or one after (when they exist)
-RecvStarts(b) == {b} \cup (IF b # Seq0 /\ Starts # "zero" /\ Menu # "none" THEN {[b EXCEPT ![8] = IF @ = 0 THEN 0 ELSE @ - 1]} ELSE {})
+RecvStarts(b) == IF Starts = "cross" THEN {PowerOfTwo(j) : j \in 0..63} ELSE
+                 {b} \cup (IF b # Seq0 /\ Starts # "zero" /\ Menu # "none" THEN {[b EXCEPT ![8] = IF @ = 0 THEN 0 ELSE @ - 1]} ELSE {})
 
 MC_Init ==
     \E b \in StartSet : \E br \in RecvStarts(b) : \E o \in (IF b = SeqMax THEN {FALSE, TRUE} ELSE {FALSE}) :
@@ -66,10 +70,10 @@ MC_Init ==
                   ELSE <<>>
 
 \* the n-th message of a sender has its own plaintext and aad (lengths straddle block sizes)
-PtLens  == <<0, 1, 17, 32, 15, 64, 16, 33, 255, 256, 257, 4097>>
-AadLens == <<0, 5, 0, 16, 1, 17, 17, 1, 256, 0, 255, 33>>
-MC_PtMenu(n)  == {Leaf("pt" \o ToString(n), PtLens[((n + LenVar) % 12) + 1])}
-MC_AadMenu(n) == {Leaf("aad" \o ToString(n), AadLens[((n + LenVar) % 12) + 1])}
+PtLens  == <<0, 1, 17, 32, 15, 64, 16, 33, 255, 256, 257, 4097, 5, 16>>
+AadLens == <<0, 5, 0, 16, 1, 17, 17, 1, 256, 0, 255, 33, 70000, 65537>>
+MC_PtMenu(n)  == {Leaf("pt" \o ToString(n), PtLens[((n + LenVar) % 14) + 1])}
+MC_AadMenu(n) == {Leaf("aad" \o ToString(n), AadLens[((n + LenVar) % 14) + 1])}
 
 D(k, s, i, j, n) == [k |-> k, s |-> s, i |-> i, j |-> j, n |-> n]
 SmallMenu(MsgIdx) ==
@@ -78,6 +82,7 @@ SmallMenu(MsgIdx) ==
     \cup {D("trunc", "s", i, 0, 1) : i \in MsgIdx} \cup {D("extend", "s", i, 0, 1) : i \in MsgIdx}
     \cup {D("swapaad", "s", i, j, 0) : i \in MsgIdx, j \in MsgIdx}
     \cup {D("garbage", "s", 3, 16, 17), D("garbage", "s", 0, 0, 15), D("garbage", "s", 0, 0, 0)}
+    \cup {D("extendtag", "s", i, 0, 16) : i \in MsgIdx}
 FullMenu(MsgIdx) ==
     {D("msg", s, i, 0, 0) : s \in {"s", "x"}, i \in MsgIdx}
     \cup {D(k, "s", i, 0, n) : k \in {"flipct", "fliptag", "flipaad"}, i \in MsgIdx, n \in {0, 7}}
@@ -90,17 +95,23 @@ FullMenu(MsgIdx) ==
 
 \* C06: EVERY single-bit position of ciphertext, tag and aad, every truncation length, extensions at
 \* either end, every substitution between two messages (ranges follow the actual message sizes)
+\* every bit of a short string; of a long one every bit of the bytes around 255/256, 65535/65536 and of the last byte
+BitBytes(n) == {0, 255, 256, 65534, 65535, 65536, n - 1} \cap 0..(n - 1)
+BitsAt(n) == IF n <= 40 THEN 0..(8 * n - 1) ELSE {8 * b + k : b \in BitBytes(n), k \in 0..7}
+TruncAad(n) == IF n <= 40 THEN 1..n ELSE {1, n - 65536, n - 65535, n - 256, n - 255, n} \cap 1..n
 IntegrityMenu(ms) ==
     LET Idx == 1..Len(ms) IN
     {D("msg", "s", i, 0, 0) : i \in Idx}
     \cup UNION {{D("flipct", "s", i, 0, n) : n \in 0..(8 * BLen(ms[i].ct) - 1)} : i \in Idx}
     \cup UNION {{D("fliptag", "s", i, 0, n) : n \in 0..(8 * BLen(ms[i].tag) - 1)} : i \in Idx}
-    \cup UNION {{D("flipaad", "s", i, 0, n) : n \in 0..(8 * BLen(ms[i].aad) - 1)} : i \in Idx}
+    \cup UNION {{D("flipaad", "s", i, 0, n) : n \in BitsAt(BLen(ms[i].aad))} : i \in Idx}
     \cup UNION {{D(k, "s", i, 0, n) : k \in {"trunc", "truncfront"}, n \in 1..(BLen(ms[i].ct) + BLen(ms[i].tag))} : i \in Idx}
     \cup UNION {{D("truncbody", "s", i, 0, n) : n \in 1..BLen(ms[i].ct)} : i \in Idx}
     \cup {D(k, "s", i, 0, n) : k \in {"extend", "prepend", "extendbody", "extendaad"}, i \in Idx, n \in {1, 16}}
     \cup {D(k, "s", i, j, 0) : k \in {"swaptag", "swapaad", "swapct"}, i \in Idx, j \in Idx}
     \cup {D("emptyaad", "s", i, 0, 0) : i \in Idx}
+    \cup {D("extendtag", "s", i, 0, n) : i \in Idx, n \in {1, 16, 32}} \cup {D("tagtwice", "s", i, 0, 0) : i \in Idx}
+    \cup UNION {{D("truncaad", "s", i, 0, n) : n \in TruncAad(BLen(ms[i].aad))} : i \in Idx}
 MC_DeliveryMenu(snt) ==
     CASE Menu = "none" -> {} [] Menu = "small" -> SmallMenu(1..MaxSeals) [] Menu = "full" -> FullMenu(1..MaxSeals)
       [] Menu = "integrity" -> IntegrityMenu(snt["s"])
@@ -117,6 +128,8 @@ MC_ExportMenu ==
       [] ExpMenu = "lens" -> {<<Leaf("ectx", 7), L>> : L \in ExportLens}
                              \cup {<<<<>>, 32>>, <<Lit(<<0>>), 32>>, <<Leaf("ectxlong", 300), 32>>, <<Leaf("ectx1", 1), 32>>}
       [] ExpMenu = "sweep" -> {<<Leaf("ectx", 7), L>> : L \in SweepFrom..SweepTo}
+      \* every exporter-context length in a range
+      [] ExpMenu = "ctxsweep" -> {<<Leaf("ectxL" \o ToString(n), n), 32>> : n \in SweepFrom..SweepTo}
 
 NoSetups(x) == {}
 NoSetups2(x, y) == {}
